@@ -261,7 +261,11 @@ func RandGenBank(r *rand.Rand, o GBOpt, labelPrefix string) seqio.GenBank {
 	gb := seqio.GenBank{Fields: f, Table: SortedTable(tab), Origin: seqio.NewOrigin(nil)}
 	if L > 0 {
 		b := make([]byte, L)
-		const letters = "acgtacgtacgtnrykm"
+		letters := "acgtacgtacgtnrykm"
+		if r.Intn(6) == 0 {
+			// a protein or an aligned row: stops and gaps are residues too.
+			letters = "ACDEFGHIKLMNPQRSTVWY*-.acgt"
+		}
 		for i := range b {
 			b[i] = letters[r.Intn(len(letters))]
 		}
